@@ -180,6 +180,25 @@ def gen_plan(rng, tier='quick', config='B', traces=None, boost=()):
         steps.append(q)
         last_q[s] = q
         prev_kind = kind if kind in ('refine', 'coarsen') else 'Q'
+    # fingerprint twins (drawn last, so every earlier draw of the plan is what it was before this existed): two
+    # consecutive queries of one session whose breakpoint sets differ but agree in length, end points, index sum
+    # and index sum of squares (Prouhet-Tarry-Escott: o+d*{0,3,5,6} vs o+d*{1,2,4,7}) - whatever an implementation
+    # memoises under a cheap fingerprint of the query instead of the query itself collides here
+    if rng.random() < 0.3:
+        s = rng.randrange(nsess)
+        n = len(pool[sessions[s]['curve']]['points'])
+        if n >= 11:
+            d = rng.randint(1, min(4, (n - 3) // 7))
+            o = rng.randint(1, n - 2 - 7 * d)
+            free = [r for r in range(1, n - 1) if not (o <= r <= o + 7 * d)]
+            base = rng.sample(free, min(len(free), rng.randint(0, 6)))
+            RA = sorted(set([0, n - 1] + base + [o + d * k for k in (0, 3, 5, 6)]))
+            RB = sorted(set([0, n - 1] + base + [o + d * k for k in (1, 2, 4, 7)]))
+            if rng.random() < 0.5:
+                RA, RB = RB, RA
+            rt = rng.choice(['nd', 'list', 'nd32'])
+            at = rng.randint(0, len(steps))
+            steps[at:at] = [{'s': s, 'op': 'Q', 'R': RA, 'rt': rt}, {'s': s, 'op': 'Q', 'R': RB, 'rt': rt}]
     return {'property': 'C15', 'config': config, 'tier': tier, 'pool': pool, 'sessions': sessions, 'steps': steps}
 
 
